@@ -273,6 +273,14 @@ func (r *NgReader) readOption() error {
 	return nil
 }
 
+// checkOptionLength returns an error if the value of the current option is shorter than length.
+func (r *NgReader) checkOptionLength(length int) error {
+	if len(r.currentOption.value) < length {
+		return fmt.Errorf("Option %d is too short: expected at least %d bytes, got %d", r.currentOption.code, length, len(r.currentOption.value))
+	}
+	return nil
+}
+
 // readSectionHeader parses the full section header and implements section skipping in case of version mismatch
 // if needed, the first interface is read
 func (r *NgReader) readSectionHeader() error {
@@ -435,13 +443,22 @@ OPTIONS:
 		case ngOptionCodeInterfaceDescription:
 			intf.Description = string(r.currentOption.value)
 		case ngOptionCodeInterfaceFilter:
+			if err := r.checkOptionLength(1); err != nil {
+				return err
+			}
 			// ignore filter type (first byte) since it is not specified
 			intf.Filter = string(r.currentOption.value[1:])
 		case ngOptionCodeInterfaceOS:
 			intf.OS = string(r.currentOption.value)
 		case ngOptionCodeInterfaceTimestampOffset:
+			if err := r.checkOptionLength(8); err != nil {
+				return err
+			}
 			intf.TimestampOffset = r.getUint64(r.currentOption.value[:8])
 		case ngOptionCodeInterfaceTimestampResolution:
+			if err := r.checkOptionLength(1); err != nil {
+				return err
+			}
 			intf.TimestampResolution = NgResolution(r.currentOption.value[0])
 		}
 	}
@@ -455,9 +472,17 @@ OPTIONS:
 	//parse options
 	if intf.TimestampResolution.Binary() {
 		//negative power of 2
+		if intf.TimestampResolution.Exponent() > 63 {
+			// the number of units per second must fit into 64 bits
+			return fmt.Errorf("Unsupported timestamp resolution 2^-%d", intf.TimestampResolution.Exponent())
+		}
 		intf.secondMask = 1 << intf.TimestampResolution.Exponent()
 	} else {
 		//negative power of 10
+		if intf.TimestampResolution.Exponent() > 19 {
+			// the number of units per second must fit into 64 bits
+			return fmt.Errorf("Unsupported timestamp resolution 10^-%d", intf.TimestampResolution.Exponent())
+		}
 		intf.secondMask = 1
 		for j := uint8(0); j < intf.TimestampResolution.Exponent(); j++ {
 			intf.secondMask *= 10
